@@ -2961,14 +2961,13 @@ func geoRadiusByMember(n *Nodis, conn *redis.Conn, cmd redis.Command) {
 				dist := geohash.DistBetweenGeoHashWGS84(h, v.Hash())
 				if cmd.Options.KM > 3 {
 					conn.WriteBulk(fmt.Sprintf("%0.4f", dist/1000))
-				}
-				if cmd.Options.MI > 3 {
+				} else if cmd.Options.MI > 3 {
 					conn.WriteBulk(fmt.Sprintf("%0.4f", dist/1609.34))
-				}
-				if cmd.Options.FT > 3 {
+				} else if cmd.Options.FT > 3 {
 					conn.WriteBulk(fmt.Sprintf("%0.4f", dist/0.3048))
+				} else {
+					conn.WriteBulk(fmt.Sprintf("%0.4f", dist))
 				}
-				conn.WriteBulk(fmt.Sprintf("%0.4f", dist))
 			}
 			if cmd.Options.WITHHASH > 3 {
 				conn.WriteUInt64(v.Hash())
